@@ -7,6 +7,7 @@ import collections
 import datetime
 import enum
 import json
+import math
 
 import attr
 import dateutil.tz
@@ -525,6 +526,10 @@ class FieldValueComponentFloat(FieldValueComponentNumber):
         converter=float,
         validator=attr.validators.instance_of(float)
     )
+
+    def __attrs_post_init__(self):
+        if math.isnan(self.value) or math.isinf(self.value):
+            raise InvalidValue(self.value, type(self), 'value')
 
     @classmethod
     @abc.abstractmethod
